@@ -161,6 +161,11 @@ def walk_under(fn_node, decide):
                 root = root.value
             if isinstance(v, ast.Attribute) and isinstance(root, ast.Name):
                 vals[n.targets[0].id] = (text(v), root.id)
+            elif isinstance(v, ast.Call) and isinstance(v.func, ast.Name) and v.func.id == "isinstance" and len(v.args) == 2 and not v.keywords \
+                    and isinstance(v.args[0], ast.Name) and not any(isinstance(x, ast.Call) for a in v.args for x in ast.walk(a)):
+                # a local naming a class test (`is_scalar = isinstance(t, ScalarType)`) stands for that test
+                if n.targets[0].id != v.args[0].id:
+                    vals[n.targets[0].id] = (text(v), v.args[0].id)
             elif isinstance(v, ast.Compare) and not any(isinstance(x, ast.Call) for x in ast.walk(v)):
                 # a local naming a side-effect free test (`provided = name in variables`) stands for that test
                 used = [x.id for x in ast.walk(v) if isinstance(x, ast.Name)]
